@@ -5,7 +5,7 @@
     puts every instruction in mode n.  The scoped half of the property ("instructions before it
     keep the previous mode") holds since the mode is recorded with every ocode (fix in /repo). *)
 From Coq Require Import List ZArith String Bool.
-From Gosk Require Import Base.Bytes Model.Ast Model.Eval Model.Asm Model.Encoder Lemmas.AsmLemmas.
+From Gosk Require Import Base.Bytes Model.Ast Model.Eval Model.Asm Model.Encoder Lemmas.AsmLemmas Lemmas.C17Program.
 Import ListNotations.
 Local Open Scope Z_scope.
 
@@ -49,3 +49,27 @@ Definition two_modes : program :=
 Example C17_scoped_example :
   exists d s, assemble gosk_encoder two_modes = Done ([184; 1; 0] ++ [184; 1; 0; 0; 0] ++ [102; 184; 2; 0; 0; 0]) d s.
 Proof. eexists _, _. vm_compute. reflexivity. Qed.
+
+(** Program level: the position of a BITS directive among statements that neither read nor set the mode - labels, EQU,
+    GLOBAL, EXTERN, the other bracket directives, DB/DW/DD/RESB/ALIGNB/ORG - is irrelevant: moving it from behind such
+    a run to the front of it leaves the outcome of the whole assembly unchanged (for any encoder). *)
+Theorem C17_bits_position_irrelevant : forall (E : encoder) f pre mid post,
+  Forall (fun st => mode_blind st = true) mid ->
+  (exists bs d s, assemble E (pre ++ mid ++ SConfig CBits f :: post) = Done bs d s) ->
+  assemble E (pre ++ SConfig CBits f :: mid ++ post) = assemble E (pre ++ mid ++ SConfig CBits f :: post).
+Proof. exact bits_position_irrelevant. Qed.
+Print Assumptions C17_bits_position_irrelevant.
+
+(* the commutation it rests on, one statement at a time *)
+Theorem C17_bits_commutes : forall (E : encoder) s f st, mode_blind st = true -> stuck (step E s st) = false ->
+  step E (step E s (SConfig CBits f)) st = step E (step E s st) (SConfig CBits f).
+Proof. exact bits_commute. Qed.
+Print Assumptions C17_bits_commutes.
+
+Example C17_position_nonvacuous :
+  let mid := [SLabel "l"; SMnem "DB" [num 1]; SEqu "K" (num 5); SConfig CSection (FId ".text"); SMnem "RESB" [num 2]]%string in
+  let post := [SMnem "MOV" [ident "EAX"; ident "K"]; SMnem "DD" [ident "l"]]%string in
+  forallb mode_blind mid = true /\
+  match assemble gosk_encoder ([SMnem "ORG" [num 31744]]%string ++ mid ++ SConfig CBits (FNum 32) :: post) with
+  | Done bs false _ => bs | _ => [] end = [1; 0; 0; 184; 5; 0; 0; 0; 0; 124; 0; 0].
+Proof. split; vm_compute; reflexivity. Qed.
